@@ -739,6 +739,12 @@ class Resolver:
                 elif tgt[0] == "func":
                     self.stats["resolved"] += 1
                     edges.add(tgt[1])
+                    # dynamic dispatch: overrides in subclasses may be meant
+                    m = prog.functions.get(tgt[1])
+                    if m is not None and m.cls is not None and m.parent is None and isinstance(n.func, ast.Attribute) and not m.is_static:
+                        for sub in self._subclasses(m.cls):
+                            if m.name in sub.methods:
+                                edges.add(sub.methods[m.name].qualname)
                 elif tgt[0] == "class":
                     self.stats["resolved"] += 1
                     init = prog.lookup_method(prog.classes[tgt[1]], "__init__")
@@ -796,6 +802,14 @@ class Resolver:
         "strip", "lower", "upper", "startswith", "endswith", "read", "write", "close",
         "open", "search", "sub", "findall", "match", "info", "warning", "error", "debug",
     }
+
+    def _subclasses(self, cls: Class) -> List[Class]:
+        cache = getattr(self, "_subcls", None)
+        if cache is None:
+            cache = self._subcls = {}
+        if cls.qualname not in cache:
+            cache[cls.qualname] = self.prog.subclasses(cls)
+        return cache[cls.qualname]
 
     def methods_named(self, name: str) -> List[Func]:
         if name in self._COMMON and name not in ("match",):
